@@ -656,4 +656,364 @@ theorem exportAndReset_sim (h : Heap) (ns : List Nat) (r : Rep h ns) :
           apply upd_other
           rw [hprev]; exact hne
 
+/-! ## Forward simulation of whole histories -/
+
+/-- `Reach h l`: the heap `h` is a well-formed ring + index representing the abstract log `l`. -/
+def Reach (h : Heap) (l : Log) : Prop := ∃ ns, Rep h ns ∧ absOf h ns = l
+
+theorem Reach_init : Reach init [] := ⟨[], Rep_init, rfl⟩
+
+theorem step_sim (h : Heap) (l : Log) (t : Nat) (o : Op) (hr : Reach h l) :
+    Reach (step h t o).1 (Spec.step l t o).1 ∧ (step h t o).2 = (Spec.step l t o).2 := by
+  obtain ⟨ns, r, rfl⟩ := hr
+  cases o with
+  | req id =>
+    simp only [step, Spec.step, Spec.req, r.hasId]
+    by_cases hd : (h.entries.get id).isSome = true
+    · obtain ⟨h1, h2, h3⟩ := recordRequest_dup h ns id t r hd
+      simp only [hd, if_true]
+      exact ⟨⟨ns, h2, h3⟩, h1⟩
+    · have hd' : (h.entries.get id).isSome = false := by simpa using hd
+      obtain ⟨h1, h2, h3⟩ := recordRequest_fresh h ns id t r hd'
+      simp only [hd', Bool.false_eq_true, if_false]
+      exact ⟨⟨_, h2, h3⟩, h1⟩
+  | res id =>
+    obtain ⟨h1, h2⟩ := recordResponse_sim h ns id t r
+    exact ⟨⟨ns, h1, h2⟩, rfl⟩
+  | exp =>
+    exact ⟨⟨ns, r, rfl⟩, exportLog_sim h ns r⟩
+  | xreset =>
+    obtain ⟨h1, h2, h3⟩ := exportAndReset_sim h ns r
+    exact ⟨⟨_, h2, h3⟩, h1⟩
+  | reset =>
+    exact ⟨⟨[], reset_sim h ns r, rfl⟩, rfl⟩
+
+theorem run_refines (ops : List Op) : ∀ (h : Heap) (l : Log) (t : Nat), Reach h l →
+    run h t ops = Spec.run l t ops := by
+  induction ops with
+  | nil => intros; rfl
+  | cons o os ih =>
+    intro h l t hr
+    obtain ⟨h1, h2⟩ := step_sim h l t o hr
+    simp only [run, Spec.run, h2, ih _ _ _ h1]
+
+theorem after_reach (ops : List Op) : ∀ (h : Heap) (l : Log) (t : Nat), Reach h l →
+    Reach (after h t ops) (Spec.after l t ops) := by
+  induction ops with
+  | nil => intro h l t hr; exact hr
+  | cons o os ih =>
+    intro h l t hr
+    exact ih _ _ _ (step_sim h l t o hr).1
+
+/-! ## History reasoning on the specification -/
+set_option linter.unusedSimpArgs false
+
+def rqs (l : Log) : List Nat := l.map (·.rq)
+def idsOf (l : Log) : List String := l.map (·.id)
+
+/-- Well-formed abstract log at clock `t`: request tags strictly increasing (arrival order) and
+    below the clock, IDs pairwise different. -/
+structure WF (l : Log) (t : Nat) : Prop where
+  sorted : (rqs l).Pairwise (· < ·)
+  bound : ∀ x ∈ rqs l, x < t
+  uniq : (idsOf l).Nodup
+
+theorem WF_nil (t : Nat) : WF [] t := ⟨by simp [rqs], by simp [rqs], by simp [idsOf]⟩
+
+theorem WF.mono {l : Log} {t t' : Nat} (w : WF l t) (h : t ≤ t') : WF l t' :=
+  ⟨w.sorted, fun x hx => Nat.lt_of_lt_of_le (w.bound x hx) h, w.uniq⟩
+
+theorem WF.filter {l : Log} {t : Nat} (w : WF l t) (p : Ent → Bool) : WF (l.filter p) t := by
+  have hs : (l.filter p).Sublist l := List.filter_sublist
+  refine ⟨w.sorted.sublist (hs.map _), ?_, w.uniq.sublist (hs.map _)⟩
+  intro x hx
+  exact w.bound x ((hs.map _).subset hx)
+
+theorem WF.nodup_rqs {l : Log} {t : Nat} (w : WF l t) : (rqs l).Nodup :=
+  w.sorted.imp (fun h => Nat.ne_of_lt h)
+
+theorem hasId_iff (l : Log) (id : String) : Spec.hasId l id = true ↔ id ∈ idsOf l := by
+  simp only [Spec.hasId, idsOf, List.any_eq_true, List.mem_map, beq_iff_eq]
+
+theorem rqs_res (l : Log) (id : String) (t : Nat) : rqs (Spec.res l id t) = rqs l := by
+  unfold rqs Spec.res
+  rw [List.map_map]
+  apply List.map_congr_left
+  intro e _; by_cases h : e.id = id <;> simp [h]
+
+theorem idsOf_res (l : Log) (id : String) (t : Nat) : idsOf (Spec.res l id t) = idsOf l := by
+  unfold idsOf Spec.res
+  rw [List.map_map]
+  apply List.map_congr_left
+  intro e _; by_cases h : e.id = id <;> simp [h]
+
+theorem WF_step (l : Log) (t : Nat) (o : Op) (w : WF l t) : WF (Spec.step l t o).1 (t + 1) := by
+  cases o with
+  | req id =>
+    simp only [Spec.step, Spec.req]
+    by_cases hd : Spec.hasId l id = true
+    · simp only [hd, if_true]; exact w.mono (Nat.le_succ t)
+    · have hd' : Spec.hasId l id = false := by simpa using hd
+      simp only [hd', Bool.false_eq_true, if_false]
+      refine ⟨?_, ?_, ?_⟩
+      · simp only [rqs, List.map_append, List.map_cons, List.map_nil]
+        rw [List.pairwise_append]
+        refine ⟨w.sorted, by simp, ?_⟩
+        intro a ha b hb
+        simp at hb; subst hb
+        exact w.bound a ha
+      · intro x hx
+        simp only [rqs, List.map_append, List.map_cons, List.map_nil, List.mem_append,
+          List.mem_singleton] at hx
+        rcases hx with hx | rfl
+        · exact Nat.lt_succ_of_lt (w.bound x hx)
+        · exact Nat.lt_succ_self _
+      · simp only [idsOf, List.map_append, List.map_cons, List.map_nil]
+        rw [List.nodup_append]
+        refine ⟨w.uniq, by simp, ?_⟩
+        intro a ha b hb
+        simp at hb; subst hb
+        intro he; subst he
+        exact hd ((hasId_iff l a).mpr ha)
+  | res id =>
+    exact ⟨by rw [Spec.step, rqs_res]; exact w.sorted,
+      by rw [Spec.step, rqs_res]; exact fun x hx => Nat.lt_succ_of_lt (w.bound x hx),
+      by rw [Spec.step, idsOf_res]; exact w.uniq⟩
+  | exp => exact w.mono (Nat.le_succ t)
+  | xreset => exact (w.filter _).mono (Nat.le_succ t)
+  | reset => exact WF_nil _
+
+theorem WF_after (ops : List Op) : ∀ (l : Log) (t : Nat), WF l t →
+    WF (Spec.after l t ops) (t + ops.length) := by
+  induction ops with
+  | nil => intro l t w; exact w
+  | cons o os ih =>
+    intro l t w
+    have := ih _ _ (WF_step l t o w)
+    simp only [Spec.after, List.length_cons]
+    rw [show t + (os.length + 1) = t + 1 + os.length by omega]
+    exact this
+
+theorem Spec.run_append (a b : List Op) : ∀ (l : Log) (t : Nat),
+    Spec.run l t (a ++ b) = Spec.run l t a ++ Spec.run (Spec.after l t a) (t + a.length) b := by
+  induction a with
+  | nil => intro l t; simp [Spec.run, Spec.after]
+  | cons o os ih =>
+    intro l t
+    simp only [List.cons_append, Spec.run, Spec.after, ih, List.length_cons]
+    rw [show t + 1 + os.length = t + (os.length + 1) by omega]
+
+theorem Spec.after_append (a b : List Op) : ∀ (l : Log) (t : Nat),
+    Spec.after l t (a ++ b) = Spec.after (Spec.after l t a) (t + a.length) b := by
+  induction a with
+  | nil => intro l t; simp [Spec.after]
+  | cons o os ih =>
+    intro l t
+    simp only [List.cons_append, Spec.after, ih, List.length_cons]
+    rw [show t + 1 + os.length = t + (os.length + 1) by omega]
+
+/-- Every export / export-and-reset output is in arrival order. -/
+theorem sorted_outputs (ops : List Op) : ∀ (l : Log) (t : Nat), WF l t →
+    ∀ es, Obs.log es ∈ Spec.run l t ops → (rqs es).Pairwise (· < ·) := by
+  induction ops with
+  | nil => intro l t _ es h; simp [Spec.run] at h
+  | cons o os ih =>
+    intro l t w es h
+    simp only [Spec.run, List.mem_cons] at h
+    rcases h with h | h
+    · cases o with
+      | req id =>
+        simp only [Spec.step, Spec.req] at h
+        split at h <;> cases h
+      | res id => cases h
+      | exp => simp only [Spec.step] at h; cases h; exact w.sorted
+      | xreset => simp only [Spec.step] at h; cases h; exact (w.filter _).sorted
+      | reset => cases h
+    · exact ih _ _ (WF_step l t o w) es h
+
+/-- What one operation hands to the caller of export-and-reset. -/
+def returnedOf (o : Op) (b : Obs) : List Ent :=
+  match o, b with
+  | .xreset, .log es => es
+  | _, _ => []
+
+/-- All entries returned by the export-and-reset calls of a history, in order. -/
+def returned : List Op → List Obs → List Ent
+  | o :: os, b :: bs => returnedOf o b ++ returned os bs
+  | _, _ => []
+
+theorem rqs_filter_disjoint (l : Log) (p : Ent → Bool) (hn : (rqs l).Nodup) :
+    ∀ x, x ∈ rqs (l.filter p) → x ∉ rqs (l.filter (fun e => !p e)) := by
+  induction l with
+  | nil => intro x hx; simp [rqs] at hx
+  | cons e l ih =>
+    intro x hx
+    simp only [rqs, List.map_cons, List.nodup_cons] at hn
+    have hsub : ∀ (q : Ent → Bool) y, y ∈ rqs (l.filter q) → y ∈ rqs l := fun q y hy =>
+      ((List.filter_sublist (p := q) (l := l)).map _).subset hy
+    by_cases hp : p e = true
+    · simp only [List.filter_cons, hp, if_true, rqs, List.map_cons, List.mem_cons, Bool.not_true,
+        Bool.false_eq_true, if_false] at hx ⊢
+      rcases hx with rfl | hx
+      · intro hm; exact hn.1 (hsub _ _ hm)
+      · exact ih hn.2 x hx
+    · have hp' : p e = false := by simpa using hp
+      simp only [List.filter_cons, hp', if_false, rqs, List.map_cons, List.mem_cons, Bool.not_false,
+        if_true, Bool.false_eq_true, not_or] at hx ⊢
+      refine ⟨?_, ih hn.2 x hx⟩
+      intro he; subst he; exact hn.1 (hsub _ _ hx)
+
+theorem step_rqs_sub (l : Log) (t : Nat) (o : Op) :
+    ∀ x ∈ rqs (Spec.step l t o).1, x ∈ rqs l ∨ x = t := by
+  intro x hx
+  cases o with
+  | req id =>
+    simp only [Spec.step, Spec.req] at hx
+    split at hx
+    · exact Or.inl hx
+    · simp only [rqs, List.map_append, List.map_cons, List.map_nil, List.mem_append,
+        List.mem_singleton] at hx
+      exact hx
+  | res id => rw [Spec.step, rqs_res] at hx; exact Or.inl hx
+  | exp => exact Or.inl hx
+  | xreset => exact Or.inl (((List.filter_sublist (l := l)).map _).subset hx)
+  | reset => simp [Spec.step, rqs] at hx
+
+/-- No request is handed out twice by export-and-reset over the whole life of the log. -/
+theorem returned_inv (ops : List Op) : ∀ (l : Log) (t : Nat), WF l t →
+    (rqs (returned ops (Spec.run l t ops))).Nodup ∧
+    ∀ x ∈ rqs (returned ops (Spec.run l t ops)), x ∈ rqs l ∨ t ≤ x := by
+  induction ops with
+  | nil => intro l t _; simp [returned, Spec.run, rqs]
+  | cons o os ih =>
+    intro l t w
+    obtain ⟨ihn, ihm⟩ := ih _ _ (WF_step l t o w)
+    have hrest : ∀ x ∈ rqs (returned os (Spec.run (Spec.step l t o).1 (t + 1) os)), x ∈ rqs l ∨ t ≤ x := by
+      intro x hx
+      rcases ihm x hx with h | h
+      · rcases step_rqs_sub l t o x h with h | h
+        · exact Or.inl h
+        · exact Or.inr (Nat.le_of_eq h.symm)
+      · exact Or.inr (by omega)
+    by_cases hx : o = .xreset
+    · subst hx
+      simp only [Spec.run, returned, Spec.step, returnedOf, rqs, List.map_append]
+      simp only [Spec.step, rqs] at ihn ihm
+      refine ⟨?_, ?_⟩
+      · rw [List.nodup_append]
+        refine ⟨(w.filter _).nodup_rqs, ihn, ?_⟩
+        intro a ha b hb hab
+        subst hab
+        rcases ihm a hb with h | h
+        · exact rqs_filter_disjoint l (fun e => e.done) w.nodup_rqs a ha h
+        · have := (w.filter (fun e => e.done)).bound a ha; omega
+      · intro x hx
+        rw [List.mem_append] at hx
+        rcases hx with hx | hx
+        · exact Or.inl (((List.filter_sublist (l := l)).map _).subset hx)
+        · exact hrest x hx
+    · have hnil : returnedOf o (Spec.step l t o).2 = [] := by
+        cases o with
+        | xreset => exact absurd rfl hx
+        | req id => simp only [Spec.step, Spec.req]; split <;> rfl
+        | res id => rfl
+        | exp => rfl
+        | reset => rfl
+      simp only [Spec.run, returned, hnil, List.nil_append]
+      exact ⟨ihn, hrest⟩
+
+/-- Export-and-reset only returns completed entries. -/
+theorem returned_done (ops : List Op) : ∀ (l : Log) (t : Nat),
+    ∀ e ∈ returned ops (Spec.run l t ops), e.done = true := by
+  induction ops with
+  | nil => intro l t e h; simp [returned, Spec.run] at h
+  | cons o os ih =>
+    intro l t e h
+    simp only [Spec.run, returned, List.mem_append] at h
+    rcases h with h | h
+    · cases o with
+      | xreset =>
+        simp only [Spec.step, returnedOf, List.mem_filter] at h
+        exact h.2
+      | req id => simp only [Spec.step, Spec.req] at h; split at h <;> simp [returnedOf] at h
+      | res id => simp [Spec.step, returnedOf] at h
+      | exp => simp [Spec.step, returnedOf] at h
+      | reset => simp [Spec.step, returnedOf] at h
+    · exact ih _ _ e h
+
+/-- Operations that do not remove entries. -/
+def quiet : Op → Bool
+  | .reset => false
+  | .xreset => false
+  | _ => true
+
+/-- Across operations other than reset / export-and-reset an entry stays in the log, keeps its
+    request, and is complete afterwards iff it was complete or a response for its ID arrived. -/
+theorem after_quiet (mid : List Op) : ∀ (l : Log) (t : Nat) (e : Ent), e ∈ l →
+    (∀ o ∈ mid, quiet o = true) →
+    ∃ e' ∈ Spec.after l t mid, e'.id = e.id ∧ e'.rq = e.rq ∧
+      e'.done = (e.done || mid.any (fun o => o == .res e.id)) := by
+  induction mid with
+  | nil => intro l t e he _; exact ⟨e, he, rfl, rfl, by simp⟩
+  | cons o os ih =>
+    intro l t e he hq
+    have hqo := hq o (by simp)
+    have hqs : ∀ o ∈ os, quiet o = true := fun o ho => hq o (List.mem_cons_of_mem _ ho)
+    cases o with
+    | reset => simp [quiet] at hqo
+    | xreset => simp [quiet] at hqo
+    | exp =>
+      obtain ⟨e', h1, h2, h3, h4⟩ := ih l (t + 1) e he hqs
+      have : (Op.exp == Op.res e.id) = false := by
+        simp only [beq_eq_false_iff_ne, ne_eq]; intro h; cases h
+      exact ⟨e', h1, h2, h3, by simp [h4, this]⟩
+    | req id =>
+      have he' : e ∈ (Spec.step l t (.req id)).1 := by
+        simp only [Spec.step, Spec.req]; split
+        · exact he
+        · exact List.mem_append_left _ he
+      obtain ⟨e', h1, h2, h3, h4⟩ := ih _ (t + 1) e he' hqs
+      have : (Op.req id == Op.res e.id) = false := by
+        simp only [beq_eq_false_iff_ne, ne_eq]; intro h; cases h
+      exact ⟨e', h1, h2, h3, by simp [h4, this]⟩
+    | res id =>
+      by_cases hid : e.id = id
+      · have he' : ({ e with rs := some t } : Ent) ∈ (Spec.step l t (.res id)).1 := by
+          simp only [Spec.step, Spec.res, List.mem_map]
+          exact ⟨e, he, by simp [hid]⟩
+        obtain ⟨e', h1, h2, h3, h4⟩ := ih _ (t + 1) _ he' hqs
+        refine ⟨e', h1, h2, h3, ?_⟩
+        rw [h4]; simp [Ent.done, hid]
+      · have he' : e ∈ (Spec.step l t (.res id)).1 := by
+          simp only [Spec.step, Spec.res, List.mem_map]
+          exact ⟨e, he, by simp [hid]⟩
+        obtain ⟨e', h1, h2, h3, h4⟩ := ih _ (t + 1) e he' hqs
+        refine ⟨e', h1, h2, h3, ?_⟩
+        have : (Op.res id == Op.res e.id) = false := by
+          simp only [beq_eq_false_iff_ne, ne_eq, Op.res.injEq]; exact fun h => hid h.symm
+        rw [h4]; simp [this]
+
+/-- The abstract log after a history that starts with the empty log. -/
+abbrev logAfter (ops : List Op) : Log := Spec.after [] 0 ops
+
+theorem WF_logAfter (ops : List Op) : WF (logAfter ops) ops.length := by
+  have := WF_after ops [] 0 (WF_nil 0); simpa using this
+
+theorem Spec.run_safe (ops : List Op) : ∀ (l : Log) (t : Nat),
+    Obs.panic ∉ Spec.run l t ops ∧ Obs.diverge ∉ Spec.run l t ops := by
+  induction ops with
+  | nil => intro l t; simp [Spec.run]
+  | cons o os ih =>
+    intro l t
+    have h := ih (Spec.step l t o).1 (t + 1)
+    have ho : (Spec.step l t o).2 ≠ .panic ∧ (Spec.step l t o).2 ≠ .diverge := by
+      cases o with
+      | req id => simp only [Spec.step, Spec.req]; split <;> simp
+      | res id => simp [Spec.step]
+      | exp => simp [Spec.step]
+      | xreset => simp [Spec.step]
+      | reset => simp [Spec.step]
+    simp only [Spec.run, List.mem_cons, not_or]
+    exact ⟨⟨fun e => ho.1 e.symm, h.1⟩, ⟨fun e => ho.2 e.symm, h.2⟩⟩
+
 end Martian.HarLog
